@@ -6,6 +6,13 @@ VERIF = os.path.dirname(os.path.dirname(os.path.abspath(__file__)))
 
 # id -> (category, technique, text, note)
 CLAIMS = {
+    'C09': ('other',
+            'static analysis: partial evaluation of the table-driven AT&T mnemonic functions (mnemo_to_att / mnemo_from_att) over every printed mnemonic x operand-size form derived from the opcode table',
+            'Decides that every mnemonic/operand-size form the decoder can produce reaches a return of mnemo_to_att (exhaustiveness of the five AT&T tables and of the size '
+            'suffix dictionaries, including partial gaps such as mov with segment sizes), that mnemo_from_att maps the produced AT&T mnemonic back to the same mnemonic '
+            '(unique decodability under the dispatch order), and that the suffix->size tables are injective.',
+            'Not decided: operand order/memory layout for concrete operands, the fsub/fdiv reversal on parsed operands, acceptance by GNU as (no assembler in the sandbox). '
+            'Known findings: 65 mnemonics/forms without AT&T mnemonic, fisttpw not parseable back.'),
     'C10': ('other',
             'static analysis: path-condition classification of every raise / assert-unreachable site in the decode, render and assemble closures, with deadness decided on the statically expanded opcode table; always-raising-construct lint; structural truncation and loop-progress rules',
             'Every raise and bare-name belief site is shown caught (IOError in the decoder), documented (ValueError in the assembler), dead by contradictory guards, or dead because '
